@@ -81,7 +81,7 @@ def run_engine_k(prop, tier, seed, only=None):
     allh = kani.discover()
     sel = kani.select(allh, prop, tier)
     if only:
-        sel = [h for h in sel if only in h.name]
+        sel = [h for h in sel if re.search(only, h.name)]
     if not sel:
         return None
     # deterministic order, permuted by seed (verdicts do not depend on it)
